@@ -107,6 +107,11 @@ def _fx_progs(tier: str) -> List[Dict[str, Any]]:
 
 def cases(tier: str, seed: int) -> List[Dict[str, Any]]:
     out = [dict(c, kind="prog", seed=seed) for c in _progs(tier)]
+    # format sweep: MANY transformed instances of one model class in one process (every one is quantised)
+    for items in ([["op", "linear:nn"], ["op", "gelu:F"], ["op", "linear:F_bias_kw"]], [["op", "sdpa:causal_kw"], ["op", "linear:nn"]],
+                  [["op", "linear:nn"]]):
+        out.append({"kind": "sweep", "prog": {"items": items, "sink": "sum", "root": "bare" if len(items) == 1 else "container"},
+                    "n": 12, "seed": seed, "fresh": True})
     out += [dict(c, kind="fx", seed=seed) for c in _fx_progs(tier)]
     for f in ("E4M3rn", "E5M2rn", "E2M1rn", "E8M23rn", "E5M2sr3"):
         for shape in ([], [7], [3, 5], [2, 3, 4], "sweep"):
@@ -177,6 +182,47 @@ def run_case(case: Dict[str, Any]) -> Dict[str, Any]:
     import torch._dynamo
     from models.programs import ALPHABET, Interp, build, inputs, keys_of
     from unit_scaling.transforms import simulate_format, simulate_fp8
+
+    if case["kind"] == "sweep":
+        from unit_scaling.formats import FPFormat
+
+        prog = case["prog"]
+        if prog.get("root") == "bare":
+            prog = dict(prog, sink="tensor")
+        m, src = build(prog, case["seed"])
+        inp = inputs(prog, case["seed"])
+        pairs = [(4, 3), (5, 2), (3, 4), (2, 1), (5, 10), (4, 2), (3, 2), (6, 1), (2, 3), (5, 3), (4, 4), (3, 3), (2, 2), (6, 3)]
+        ident = f"sweep|root={prog.get('root', 'container')}"
+
+        def run_s(model: Any, call: Any) -> Any:
+            for p_ in model.parameters():
+                p_.grad = None
+            a0 = inp[0].clone().requires_grad_(True)
+            y = call(a0, *[a.clone() for a in inp[1:]])
+            loss = y if y.dim() == 0 else (y * torch.linspace(-1, 1, y.numel()).reshape(y.shape)).sum()
+            loss.backward()
+            return y.detach(), a0.grad.clone()
+
+        y_plain, _ = run_s(copy.deepcopy(m), copy.deepcopy(m))
+        nbad = 0
+        for i in range(case["n"]):
+            fwd = FPFormat(*pairs[i % len(pairs)], rounding="nearest")
+            bwd = FPFormat(*pairs[(i + 3) % len(pairs)], rounding="nearest")
+            try:
+                t = simulate_format(m, fwd, bwd)
+                y_imp, g_imp = run_s(t, t)
+            except Exception as e:  # noqa
+                return {"violations": [exception_violation(e, ident)], "steps": i, "outcome": "raises"}
+            ref_m = copy.deepcopy(m)
+            y_ref, g_ref = run_s(ref_m, lambda *a: Interp(prog, ref_m, QuantSemantics(fwd, bwd)).run(*a))
+            if not torch.equal(y_imp, y_ref) or not torch.equal(g_imp, g_ref):
+                viol.append({"key": ident + "|instance_differs_from_hand_quantised", "msg":
+                             f"transformed instance #{i} of the class (fwd E{fwd.exponent_bits}M{fwd.mantissa_bits}): "
+                             f"equal to the UNquantised module: {bool(torch.equal(y_imp, y_plain))}\n" + src})
+                nbad += 1
+                if nbad >= 2:
+                    break
+        return {"violations": viol[:2], "steps": case["n"], "nontrivial": True, "outcome": f"sweep:{'ok' if not viol else 'bad'}"}
 
     prog, fname = case["prog"], case["fmt"]
     keys = keys_of(prog["items"])
